@@ -520,14 +520,15 @@ theorem foldl_congr_mem {α β : Type} {f g : β → α → β} : ∀ (S : List 
 
 /-! ## the theorem -/
 
-/-- **apply_diff_flatten**: for compatible documents over path-safe keys, every list item of the
-    left one holding a scalar, applying the diff to the right document gives the left one's
-    flattened view. -/
-theorem apply_diff_flatten_core (L R : AMap Node) (hL : (Node.cont L).Valid) (hR : (Node.cont R).Valid)
+/-- the general form: ANY path-sorted arrangement of what Diff emits (whatever the sorting
+    algorithm, stable or not, and whatever the emission order was) reconstructs the left
+    document's flattened view when applied to the right document -/
+theorem apply_sorted_perm_flatten (L R : AMap Node) (hL : (Node.cont L).Valid) (hR : (Node.cont R).Valid)
     (hsL : (Node.cont L).SafeKeys) (hsR : (Node.cont R).SafeKeys) (hc : Compat (.cont L) (.cont R))
-    (hi : (Node.cont L).ItemsHaveScalars) : flatten (apply R (diff L R)) = flatten L := by
+    (hi : (Node.cont L).ItemsHaveScalars) (ms : List Mod) (hms : ms.Perm (emit L R)) (hsorted : PathSorted ms) :
+    flatten (apply R ms) = flatten L := by
   have hemit : emit L R = (emitM (.cont L) (.cont R)).map (renderM "") := emitNode_M _ _ "" hL hR hc
-  have hperm : (diff L R).Perm ((emitM (.cont L) (.cont R)).map (renderM "")) := hemit ▸ sortMods_perm _
+  have hperm : ms.Perm ((emitM (.cont L) (.cont R)).map (renderM "")) := hemit ▸ hms
   obtain ⟨S, hS, hSm⟩ := exists_perm_map (renderM "") hperm _ rfl
   have hsafe : ∀ m ∈ S, m.Safe := fun m hm => safe_emitM _ _ hsL hsR m (hS.mem_iff.mp hm)
   have hkeyed : ∀ m ∈ S, m.Keyed := by
@@ -537,8 +538,8 @@ theorem apply_diff_flatten_core (L R : AMap Node) (hL : (Node.cont L).Valid) (hR
     rcases this with h | h
     · exact keyed_emitLeftM _ _ m h
     · exact keyed_emitRightM _ _ m h
-  have hord : Ord S := ord_of_sorted hsafe (by rw [hSm]; exact sortMods_sorted _)
-  have happly : apply R (diff L R) = S.foldl (fun c m => actK m c) R := by
+  have hord : Ord S := ord_of_sorted hsafe (by rw [hSm]; exact hsorted)
+  have happly : apply R ms = S.foldl (fun c m => actK m c) R := by
     rw [← hSm, apply, List.foldl_map]
     exact foldl_congr_mem S R (fun m hm c => applySingle_renderM (hkeyed m hm) (hsafe m hm) c)
   have := recon (.cont L) (.cont R) hL hR hi hc S hS hord ""
@@ -546,5 +547,13 @@ theorem apply_diff_flatten_core (L R : AMap Node) (hL : (Node.cont L).Valid) (hR
   simp only [flatO, flattenNode] at this
   rw [happly]
   exact this
+
+/-- **apply_diff_flatten**: for compatible documents over path-safe keys, every list item of the
+    left one holding a scalar, applying the diff to the right document gives the left one's
+    flattened view. -/
+theorem apply_diff_flatten_core (L R : AMap Node) (hL : (Node.cont L).Valid) (hR : (Node.cont R).Valid)
+    (hsL : (Node.cont L).SafeKeys) (hsR : (Node.cont R).SafeKeys) (hc : Compat (.cont L) (.cont R))
+    (hi : (Node.cont L).ItemsHaveScalars) : flatten (apply R (diff L R)) = flatten L :=
+  apply_sorted_perm_flatten L R hL hR hsL hsR hc hi _ (sortMods_perm _) (sortMods_sorted _)
 
 end Ytk
